@@ -6,6 +6,7 @@ func init() {
 		Subs: []Sub{
 			{Pkg: "kvsim", Harness: "conc", Weight: 4},
 			{Pkg: "kvsim", Harness: "conc", Config: "wide", Weight: 1, Note: "5-8 clients x 2 calls"},
+			{Pkg: "kvsim", Harness: "sharedbatch", Weight: 1, Note: "one batch object shared by 2-3 filling and 1-2 committing tasks: a write recorded before a Commit was invoked has taken effect when it returns"},
 		},
 		QuickS: 30, ThoroughS: 900,
 		Rule:   "each run draws 2-4 views of ONE mapdb (realms from {\"\",a,ab,b}, WithRealm / WithExtendedRealm, each wrapped by a drawn stack of flushkv/debug), a pool of 2-4 full keys, an initial content, 2-4 clients (wide: 5-8) with 3-8 calls each (wide: 2) out of Get, Has, Set, Delete, DeletePrefix, Clear, Iterate/IterateKeys (direction, stop after 0-2, consumer optionally yields), Batched+Commit of 1-3 Set/Delete entries, and in a quarter of the runs one Close; then a schedule; distinct = distinct hash of (script, context-switch sequence, results); non-trivial = at least two recorded decisions",
